@@ -86,11 +86,6 @@ pub proof fn lemma_div_exact(len: int, c: int)
     assert((len / c) * c == len) by(nonlinear_arith) requires 0 <= len, 0 < c, len % c == 0;
 }
 
-// vstd companions (rule R13) for the conversion impls
-impl<T> vstd::std_specs::convert::FromSpecImpl<T> for Vector where T: Into<Vec<f64>> {
-    open spec fn obeys_from_spec() -> bool { <T as vstd::std_specs::convert::IntoSpec<Vec<f64>>>::obeys_into_spec() }
-    open spec fn from_spec(v: T) -> Self { Vector { v: <T as vstd::std_specs::convert::IntoSpec<Vec<f64>>>::into_spec(v) } }
-}
 '''
 
 INTO_VEC = '<T as vstd::std_specs::convert::IntoSpec<Vec<f64>>>'
@@ -110,7 +105,13 @@ def reg(f):
 reg(Fn(VEC + '{impl Deref for Vector}::deref', ret='r', ensures=['core.deref:: *r == self.v']))
 reg(Fn(VEC + '{impl DerefMut for Vector}::deref_mut', ret='r',
        ensures=['core.deref_mut.cur:: *r == old(self).v', 'core.deref_mut.fin:: *final(r) == final(self).v']))
-reg(Fn(VEC + '{impl<T> From<T> for Vector where T: Into<Vec<f64>>}::from', ret='r'))
+FROM_COMP = r'''// vstd companions (rule R13) for the conversion impls
+impl<T> vstd::std_specs::convert::FromSpecImpl<T> for Vector where T: Into<Vec<f64>> {
+    open spec fn obeys_from_spec() -> bool { <T as vstd::std_specs::convert::IntoSpec<Vec<f64>>>::obeys_into_spec() }
+    open spec fn from_spec(v: T) -> Self { Vector { v: <T as vstd::std_specs::convert::IntoSpec<Vec<f64>>>::into_spec(v) } }
+}
+'''
+reg(Fn(VEC + '{impl<T> From<T> for Vector where T: Into<Vec<f64>>}::from', ret='r', companion=FROM_COMP))
 reg(Fn(IV + 'empty', ret='r', ensures=['core.empty:: r.v@.len() == 0']))
 reg(Fn(IV + 'new', ret='r',
        ensures=['core.vnew:: %s::obeys_into_spec() ==> r.v == %s::into_spec(v)' % (INTO_VEC, INTO_VEC)]))
